@@ -1,0 +1,21 @@
+//go:build verif
+
+package soyhtml
+
+import "sync/atomic"
+
+var verifUnboundCount int64
+
+// VerifUnboundObserver, if set, is called with every name that a scope lookup
+// found bound in no frame.  (It must be set before any render starts.)
+var VerifUnboundObserver func(name string)
+
+func verifUnbound(k string) {
+	atomic.AddInt64(&verifUnboundCount, 1)
+	if VerifUnboundObserver != nil {
+		VerifUnboundObserver(k)
+	}
+}
+
+// VerifUnboundLookups returns the number of lookups so far that no frame bound.
+func VerifUnboundLookups() int64 { return atomic.LoadInt64(&verifUnboundCount) }
